@@ -134,6 +134,7 @@ pub fn run(ctx: &mut Ctx) {
     let mut set: Vec<i64> = Vec::new();
     let mut p = 1i64;
     while p <= 1_000_000_000_000_000_000 { for d in -1..=1 { set.push(p + d); set.push(-(p + d)); } if p == 1_000_000_000_000_000_000 { break; } p *= 10; }
+    for e in 0..=62u32 { for d in -3..=3i64 { set.push((1i64 << e) + d); set.push(-((1i64 << e) + d)); } }
     for unit in [US_SEC, US_MIN, US_HOUR, US_DAY] {
         for k in [1i64, 2, 23, 24, 59, 60, 61, 99, 100, 365, 366, 1000, 99_999_999, 100_000_000] {
             if let Some(x) = unit.checked_mul(k) { for d in -1..=1 { set.push(x + d); set.push(-(x + d)); } }
@@ -146,7 +147,7 @@ pub fn run(ctx: &mut Ctx) {
     set.dedup();
     ctx.bound("interval_dt_structured", json!(set.len()));
     let set = &set;
-    let r = ctx.sweep_each("interval_dt_structured", "powers of ten and unit multiples +/-1, range limits +/-2, i64 extremes, 64 seed-derived", set.len() as u64, 64, |idx, acc| dt_check(acc, idx, set[idx as usize]));
+    let r = ctx.sweep_each("interval_dt_structured", "powers of ten and unit multiples +/-1, powers of two +/-3, range limits +/-2, i64 extremes, 64 seed-derived", set.len() as u64, 64, |idx, acc| dt_check(acc, idx, set[idx as usize]));
     ctx.require(&r, &["negative", "non_negative", "rejected_out_of_range"]);
     let span: u64 = if ctx.thorough() { 40 } else { 2 };
     ctx.bound("interval_dt_seconds", json!(format!("every second within +/-{span} days x µs {{0,1,999999}}")));
